@@ -53,7 +53,7 @@ def main():
         j = int(a[1]); a = a[2:]
     jobs = []
     if a and a[0] in ("all", "round3"):
-        pat = "[1-9]" if a[0] == "all" else "[78]"
+        pat = "[1-9]*" if a[0] == "all" else "[78]"
         for d in sorted(glob.glob("/tmp/out-C*/" + pat)):
             if os.path.exists(d + "/patch.diff"):
                 jobs.append((d.split("/")[2][4:], d.split("/")[3]))
